@@ -136,3 +136,7 @@ func modeOpt(m eng.Mode) eng.Options { return eng.Options{Mode: m} }
 func fmtRes(r eng.Result) string {
 	return fmt.Sprintf("%v %q @ %s", r.Outcome, r.Msg, r.Site)
 }
+
+func rec_thorough() bool          { return rec.Thorough() }
+func mine(i int) bool             { return rec.Mine(i) }
+func setRapid(name string, n int) { rec.SetRapid(name, n) }
